@@ -4,7 +4,7 @@
 (* on the IR skeleton exported from the real frontend (obs.ir) and against *)
 (* the shape the source-level AST predicts (Lower).                        *)
 (***************************************************************************)
-EXTENDS Query, Json, IOUtils
+EXTENDS Lower, Json, IOUtils
 Insts == ndJsonDeserialize(IOEnv.INST)
 Obs == ndJsonDeserialize(IOEnv.OBS)
 VARIABLES i, ph
@@ -112,13 +112,16 @@ MatchesSource(inst, ir) ==
        /\ it.optional = (n.mode = "optional")
        /\ it.depth = (IF n.mode = "recurse" THEN n.depth ELSE 0)
 
+\* the whole compiled query, component by component, is what Lower.tla derives from the source (only evaluated when the shape matches)
+LowerAgrees(inst, ir) == ~MatchesSource(inst, ir) \/ Exported(ir) = Lowered(inst)
 Clauses(inst, ir) ==
   << <<"edge i leads to vertex i+1", EdgeLeadsToNext(ir)>>, <<"every vertex and edge in exactly one component", ExactlyOneComponent(ir)>>,
      <<"folds precede their contents", FoldsPrecedeContents(ir)>>, <<"edges go from lower to higher vertex ids", EdgesGoUp(ir)>>,
      <<"tags are defined at vertices resolved before their uses", TagsResolvedBeforeUse(ir)>>,
      <<"imported tags are exactly those used inside a fold from outside it (from its enclosing component)", ImportedExactly(ir)>>,
      <<"every variable use is recorded with a compatible type", VariablesTyped(ir) /\ VarsAsImplied(inst, ir)>>,
-     <<"the compiled shape is the one the source query predicts", MatchesSource(inst, ir)>> >>
+     <<"the compiled shape is the one the source query predicts", MatchesSource(inst, ir)>>,
+     <<"the compiled query is the one the source query denotes (Lower.tla)", LowerAgrees(inst, ir)>> >>
 Judged == ph = 0 \/
   LET inst == Insts[i]  ir == Obs[i].ir  cl == Clauses(inst, ir)
       bad == {k \in 1..Len(cl) : ~cl[k][2]}
